@@ -142,6 +142,29 @@ pub(crate) fn split_os_argument(input: &std::ffi::OsStr) -> Option<(ArgType, Str
             Some(os_from_vec(vec).to_str()?.to_owned())
         }
 
+        // number of elements the first character of the name occupies: a short name can be a
+        // non ASCII character which takes several bytes in utf8 or a surrogate pair in utf16
+        fn first_char_width(name: &[Elt]) -> usize {
+            let width;
+            #[cfg(unix)]
+            {
+                width = match name.first() {
+                    Some(b) if *b >= 0xF0 => 4,
+                    Some(b) if *b >= 0xE0 => 3,
+                    Some(b) if *b >= 0xC0 => 2,
+                    _ => 1,
+                };
+            }
+            #[cfg(windows)]
+            {
+                width = match name.first() {
+                    Some(w) if (0xD800..0xDC00).contains(w) => 2,
+                    _ => 1,
+                };
+            }
+            width.min(name.len())
+        }
+
         // but in either case dashes and equals are just literal values just with different width
         const DASH: Elt = b'-' as Elt;
         const EQUALS: Elt = b'=' as Elt;
@@ -180,11 +203,12 @@ pub(crate) fn split_os_argument(input: &std::ffi::OsStr) -> Option<(ArgType, Str
         loop {
             match items.next() {
                 Some(EQUALS) => {
-                    if ty == ArgType::Short && name.len() > 1 {
-                        let mut body = name.drain(1..).collect::<Vec<_>>();
+                    let first = first_char_width(&name);
+                    if ty == ArgType::Short && name.len() > first {
+                        let mut body = name.drain(first..).collect::<Vec<_>>();
                         body.push(EQUALS);
                         body.extend(items);
-                        name.truncate(1);
+                        name.truncate(first);
                         let os = Arg::ArgWord(os_from_vec(body));
                         return Some((ty, str_from_vec(name)?, Some(os)));
                     }
@@ -245,11 +269,12 @@ pub(crate) fn split_os_argument_fallback(
     loop {
         match chars.next() {
             Some('=') => {
-                if ty == ArgType::Short && name.len() > 1 {
-                    let mut body = name.drain(1..).collect::<String>();
+                let first = name.chars().next().map_or(0, char::len_utf8);
+                if ty == ArgType::Short && name.len() > first {
+                    let mut body = name.drain(first..).collect::<String>();
                     body.push('=');
                     body.extend(chars);
-                    name.truncate(1);
+                    name.truncate(first);
                     let os = Arg::ArgWord(OsString::from(body));
                     return Some((ty, name, Some(os)));
                 }
